@@ -161,10 +161,10 @@ func (wtr *XMLWtr) ident(p *node.Path) string {
 
 func (wtr *XMLWtr) getXmlns(p *node.Path) string {
 	ns := ""
-	if meta.OriginalModule(p.Meta).Namespace() == "" {
-		ns = meta.OriginalModule(p.Meta).Ident()
+	if meta.NamespaceModule(p.Meta).Namespace() == "" {
+		ns = meta.NamespaceModule(p.Meta).Ident()
 	} else {
-		ns = meta.OriginalModule(p.Meta).Namespace()
+		ns = meta.NamespaceModule(p.Meta).Namespace()
 	}
 	return ns
 }
@@ -249,7 +249,7 @@ func (wtr *XMLWtr) getStringValue(p *node.Path, v val.Value) (string, error) {
 	switch v.Format() {
 	case val.FmtIdentityRef:
 		stringValue = v.String()
-		leafMod := meta.OriginalModule(p.Meta)
+		leafMod := meta.NamespaceModule(p.Meta)
 		bases := p.Meta.(meta.HasType).Type().Base()
 		idty := meta.FindIdentity(bases, stringValue)
 		if idty == nil {
